@@ -1,5 +1,6 @@
 import PolyVerif.Model.LineText
 import PolyVerif.Gen.RebaseTags
+import PolyVerif.Base.JsonRead
 /-
 Model of poly/io/rebase (property C16), statement by statement, as the code is after commits
 13143f5 (`TrimLeft(line, " \t")`, `commercialParsingLine > 2`) and a3fb5a0 (an empty `<2>` line leaves
@@ -213,20 +214,57 @@ def importJ : JVal → Option (List (Str × Enzyme))
   | .obj fs => entriesOfJ fs
   | _ => none
 
-/-! ### the token stream of a JSON value (what `json.Decoder.Token` yields; used by the harness protocol) -/
+/-! ### the JSON TEXT of the export (printer and reader of Base/JVal, Base/JsonRead) -/
 
 mutual
-def tokens : JVal → List String
-  | .null => ["null"]
-  | .str s => ["s:" ++ String.ofList s]
-  | .arr items => "[" :: tokensList items ++ ["]"]
-  | .obj fields => "{" :: tokensFields fields ++ ["}"]
-def tokensList : List JVal → List String
+/-- the same value in the shared JSON value type (strings as code points) -/
+def toBase : JVal → PolyVerif.JVal
+  | .null => .null
+  | .str s => .str (s.map Char.toNat)
+  | .arr items => .arr (toBaseList items)
+  | .obj fields => .obj (toBaseFields fields)
+def toBaseList : List JVal → List PolyVerif.JVal
   | [] => []
-  | v :: r => tokens v ++ tokensList r
-def tokensFields : List (Str × JVal) → List String
+  | v :: r => toBase v :: toBaseList r
+def toBaseFields : List (Str × JVal) → List (S × PolyVerif.JVal)
   | [] => []
-  | (k, v) :: r => ("s:" ++ String.ofList k) :: tokens v ++ tokensFields r
+  | (k, v) :: r => (k.map Char.toNat, toBase v) :: toBaseFields r
 end
+
+mutual
+/-- back; `none` for a number or a boolean (no field of `rebase.Enzyme` is one) -/
+def ofBase : PolyVerif.JVal → Option JVal
+  | .null => some .null
+  | .bool _ => none
+  | .num _ => none
+  | .str s => some (.str (s.map Char.ofNat))
+  | .arr xs => (ofBaseList xs).map .arr
+  | .obj kvs => (ofBaseFields kvs).map .obj
+def ofBaseList : List PolyVerif.JVal → Option (List JVal)
+  | [] => some []
+  | v :: r =>
+    match ofBase v, ofBaseList r with
+    | some a, some b => some (a :: b)
+    | _, _ => none
+def ofBaseFields : List (S × PolyVerif.JVal) → Option (List (Str × JVal))
+  | [] => some []
+  | (k, v) :: r =>
+    match ofBase v, ofBaseFields r with
+    | some a, some b => some ((k.map Char.ofNat, a) :: b)
+    | _, _ => none
+end
+
+/-- `rebase.Export`: the JSON text `json.Marshal` writes for the map (as code points; the harness
+compares it with the real bytes on every case) -/
+def exportText (m : List (Str × Enzyme)) : S := (toBase (exportJ m)).print
+
+/-- `json.Unmarshal(text, &map[string]Enzyme{})` -/
+def importText (t : S) : Option (List (Str × Enzyme)) :=
+  match JsonRead.parse t with
+  | some v =>
+    match ofBase v with
+    | some j => importJ j
+    | none => none
+  | none => none
 
 end PolyVerif.Rebase
